@@ -1061,6 +1061,14 @@ func (c *Conn) writeRequest(ctx *Ctx) error {
 		return nil
 	}
 
+	// Out of time before it was written: the timer resolves it, and a write
+	// with a deadline in the past would only fail, and take the connection
+	// with it.
+	if ctx.expired() {
+		ctx.release()
+		return nil
+	}
+
 	released := false
 
 	release := func() {
@@ -1199,12 +1207,14 @@ func (c *Conn) writeRequest(ctx *Ctx) error {
 	}
 
 	c.bwLck.Lock()
+	c.boundWrites(ctx)
 
 	err := c.writeHeaderBlock(fr, h)
 	if err == nil {
 		err = c.bw.Flush()
 	}
 
+	c.unboundWrites(ctx)
 	c.bwLck.Unlock()
 
 	ReleaseHeaderField(hf)
@@ -1451,7 +1461,20 @@ func (c *Conn) sendPending(id uint32) error {
 			return nil
 		}
 
-		err := c.flushData(id, body, end)
+		if pb.ctx.expired() {
+			pb.ctx.release()
+
+			// nothing went out: the connection window is still there
+			c.sendLck.Lock()
+			c.connWindow += int32(n)
+			c.sendLck.Unlock()
+
+			c.deletePending(id)
+
+			return nil
+		}
+
+		err := c.flushData(pb.ctx, id, body, end)
 
 		pb.ctx.release()
 
@@ -1469,9 +1492,12 @@ func (c *Conn) sendPending(id uint32) error {
 // flushData writes one run of DATA frames and flushes them. It is split out so
 // that sendPending's loop does not hold bwLck across a Read on the caller's
 // body stream.
-func (c *Conn) flushData(id uint32, body []byte, end bool) error {
+func (c *Conn) flushData(ctx *Ctx, id uint32, body []byte, end bool) error {
 	c.bwLck.Lock()
 	defer c.bwLck.Unlock()
+
+	c.boundWrites(ctx)
+	defer c.unboundWrites(ctx)
 
 	err := c.writeData(id, body, end)
 	if err == nil {
@@ -1479,6 +1505,28 @@ func (c *Conn) flushData(id uint32, body []byte, end bool) error {
 	}
 
 	return err
+}
+
+// boundWrites puts the request's deadline on the socket while frames are
+// written on its behalf, and unboundWrites takes it off again. Both run under
+// bwLck, so no other frame is written with it.
+//
+// These writes happen with the request's Ctx held, and a peer that has stopped
+// reading blocks them for good. RoundTrip then could not hand the Request back
+// to its caller when MaxResponseTime was up, however long ago that was: the
+// request outlived its timeout by as long as the connection stayed up. A write
+// that is still blocked at the deadline now fails, which ends the connection,
+// as any other write error does; one peer has stopped reading everything on it.
+func (c *Conn) boundWrites(ctx *Ctx) {
+	if !ctx.deadline.IsZero() {
+		_ = c.c.SetWriteDeadline(ctx.deadline)
+	}
+}
+
+func (c *Conn) unboundWrites(ctx *Ctx) {
+	if !ctx.deadline.IsZero() {
+		_ = c.c.SetWriteDeadline(time.Time{})
+	}
 }
 
 // refillPending pulls the next chunk of a streamed request body into the
